@@ -8,6 +8,10 @@ CLAIMED = {
  'C02': dict(text="Bounded symbolic model checking of the real force routines: reb_calculate_acceleration is executed from clang's LLVM IR of the current tree on symbolic positions, masses, G, softening and box sizes (exact real arithmetic), for every (routine, N<=3/5, N_active, testparticle_type, gravity_ignore_terms, ghost-box) configuration in the bound, and each acceleration component is proved equal to an independent pairwise Newtonian sum by z3; MERCURIUS/TRACE: the two parts add up to the heliocentric force for an arbitrary switching function / every 0-1 encounter matrix. Counterexamples are replayed on a natively built library before being reported.",
              note="REAL domain: rounding error magnitude is outside the claim; sqrt/inv as uninterpreted atoms with instantiated field axioms; clang -O0 IR lowering, llsym interpreter (validated bit-for-bit against the native build on every run), z3; tree code and JACOBI routine not covered here.",
              technique="SMT-based bounded symbolic execution of LLVM IR (llsym + z3), differential against a reference sum", ref='5/C02'),
+
+ 'C12': dict(text="Bounded symbolic model checking of the real reb_particles_transform_* functions (Jacobi, democratic heliocentric, WHDS, barycentric; pos/posvel/acc/posvelacc variants) and of the MERCURIUS/TRACE heliocentric shifts: executed from LLVM IR on symbolic positions, velocities, accelerations and masses for every N<=4/6 and every N_active in 1..N; z3 proves inverse∘forward = identity and forward∘inverse = identity per component, slot 0 = (total active mass, COM position, COM velocity), Jacobi coordinates equal their textbook definition, and the variants agree on common outputs. Counterexamples are replayed natively.",
+             note="REAL domain (exact rationals): rounding error magnitude is outside the claim; denominators (partial mass sums) assumed non-zero, m_0>0, masses>=0; N_active=0 outside; inertial_to_barycentric_acc is declared but not defined in the library and therefore not covered.",
+             technique="SMT-based bounded symbolic execution of LLVM IR (llsym + z3), rational-function identities", ref='5/C12'),
 }
 NA = {}
 checks = []
